@@ -187,6 +187,20 @@ func (rngdata *RangeNamespaceData) verifyShares(
 		if len(row) == 0 {
 			return fmt.Errorf("empty shares at row %d", i)
 		}
+		// every row must carry exactly the part of the requested range that lies in it:
+		// checking only the total amount lets a response move shares between rows.
+		startCol, endCol := 0, odsSize-1
+		if i == 0 {
+			startCol = from.Col
+		}
+		if i == len(shares)-1 {
+			endCol = to.Col
+		}
+		if len(row) != endCol-startCol+1 {
+			return fmt.Errorf(
+				"mismatched shares amount at row %d: expected %d vs got %d", from.Row+i, endCol-startCol+1, len(row),
+			)
+		}
 	}
 	if rngdata.FirstIncompleteRowProof != nil && rngdata.FirstIncompleteRowProof.Start() != from.Col {
 		return fmt.Errorf(
